@@ -593,7 +593,7 @@ fn rep_count(rng: &mut Rng, cols: usize, s: String) -> String {
 fn gen_overflow(rng: &mut Rng, cols: usize, rows: usize) -> String {
     let f = *rng.pick(&[
         'A', 'B', 'C', 'D', 'E', 'F', 'G', 'H', 'I', 'J', 'K', 'L', 'M', 'P', 'S', 'T', 'X', 'Z', '@', '`', 'a', 'd',
-        'e', 'f', 'g', 'h', 'l', 'm', 'r', 'S', 'T', 'L', 'M', 'r', 'W',
+        'e', 'f', 'g', 'h', 'l', 'm', 'r', 'S', 'T', 'L', 'M', 'r', 'W', 't', 'b',
     ]);
     let edge = rows.max(cols).min(9);
     if rng.chance(20) {
@@ -623,6 +623,7 @@ fn gen_overflow(rng: &mut Rng, cols: usize, rows: usize) -> String {
             'g' => rng.pick(&["", "0", "3"]).to_string(),
             'W' => rng.pick(&["", "0", "2", "5"]).to_string(),
             'J' | 'K' => rng.pick(&["", "0", "1", "2"]).to_string(),
+            't' => format!("8;{};{}", rng.range(1, 30), rng.range(1, 90)),
             'm' => rng.pick(&["1", "4", "7", "31", "0"]).to_string(),
             _ => {
                 if rng.chance(12) {
@@ -633,7 +634,7 @@ fn gen_overflow(rng: &mut Rng, cols: usize, rows: usize) -> String {
             }
         };
         s.push_str(&p1);
-        if rng.chance(40) && !"gWJK".contains(f) {
+        if rng.chance(40) && !"gWJKt".contains(f) {
             s.push(';');
             s.push_str(&rng.range(1, edge.max(1)).to_string());
         }
@@ -677,6 +678,7 @@ fn gen_huge(rng: &mut Rng, cols: usize) -> String {
             let n = if f == 'b' { rep_count(rng, cols, n) } else { n };
             format!("{}{}{}", csi(rng), n, f)
         }
+        1 if rng.chance(60) => gen_overflow(rng, cols, cols.min(8)),
         1 => {
             // > 32 parameters
             let n = rng.range(30, 40);
